@@ -344,6 +344,57 @@ def _est(case):
                                     "least squares" if crit == "mselin" else "mean", crit),
                                     "row %r leaf %d predicted %r expected %r %s" % (
                                         probes[k].tolist(), leaf, pred[k], exp[list(q).index(k)], desc))
+    # histories with a refused fit first (NaN target, rows/targets of different lengths, an invalid hyper-parameter corrected through
+    # set_params), then a valid fit on the same object: the clauses hold for that model as for a fresh one
+    ys = case["ys"][len(case["ys"]) // 2]
+    y = numpy.array(ys, dtype=numpy.float64)
+    for crit, failing, other_n in itertools.product(("mselin", "simple"), ("nan target", "length mismatch", "max_depth=0"), (False, True)):
+        desc = "design=%s y=%r criterion=%s history: fit refused (%s), then a valid fit%s" % (
+            case["design"], ys, crit, failing, " on data of another size" if other_n else "")
+        m = PiecewiseTreeRegressor(criterion=crit, max_depth=2, min_samples_leaf=1)
+        try:
+            if failing == "nan target":
+                yb = y.copy()
+                yb[0] = numpy.nan
+                m.fit(X_c, yb)
+            elif failing == "length mismatch":
+                m.fit(X_c, y[:-1])
+            else:
+                m.set_params(max_depth=0)
+                m.fit(X_c, y)
+            continue            # not refused: nothing to check here
+        except Exception:
+            pass
+        try:
+            m.set_params(max_depth=2)
+            Xv, yv = (X_c[:-1], y[:-1]) if other_n else (X_c, y)
+            m.fit(Xv, yv)
+            pred = m.predict(probes)
+            leaves = m.apply(probes)
+        except Exception as e:
+            bad("raises %s|criterion=%s,after a refused fit" % (type(e).__name__, crit), "%s %s" % (str(e)[:200], desc))
+            continue
+        cnt += 1
+        nv = len(yv)
+        ltrain = m.apply(Xv)
+        for leaf in set(leaves.tolist()):
+            rows = numpy.where(ltrain == leaf)[0]
+            q = numpy.where(leaves == leaf)[0]
+            if len(rows) == 0:
+                continue
+            if crit == "simple":
+                exp = numpy.full(len(q), yv[rows].mean())
+                chk = numpy.ones(len(q), dtype=bool)
+            else:
+                A = numpy.hstack([Xv[rows], numpy.ones((len(rows), 1))])
+                beta, _res, rank, _sv = numpy.linalg.lstsq(A, yv[rows], rcond=None)
+                exp = numpy.hstack([probes[q], numpy.ones((len(q), 1))]) @ beta
+                chk = numpy.array([any((probes[j] == Xv[r]).all() for r in rows) for j in q]) if rank < A.shape[1] else numpy.ones(len(q), dtype=bool)
+            diff = numpy.abs(pred[q] - exp)
+            if chk.any() and (diff[chk] > (1e-8 if case["design"] != "offset" else 1e-4)).any():
+                bad("prediction != per-leaf %s|criterion=%s,after a refused fit" % ("least squares" if crit == "mselin" else "mean", crit),
+                    "leaf %d predicted %r expected %r %s" % (leaf, pred[q][chk][:3].tolist(), exp[chk][:3].tolist(), desc))
+                break
     return {"viol": viol, "nontrivial": ntree > 0, "states": cnt, "transitions": cnt * len(probes),
             "outcome": ("est", case["design"], n), "counters": {"trees_with_splits": ntree}}
 
